@@ -86,6 +86,11 @@ def cases(tier, seed):
             if c["obs"] == "image":
                 c["no_batch_norm"] = bool(rng.random() < 0.7)
             out.append(c)
+    # directed: the recorded carrier of the known finding rainbow-clamped-target-mass-depends-on-next-obs (a parameter
+    # mutation makes the target network peaked enough for clamp(min=1e-3) to inflate the target mass)
+    out.append({"algo": "RainbowDQN", "var": {"mode": "per_nstep"}, "obs": "vector", "gamma": 0.5, "tau": 0.001,
+                "policy_freq": 2, "done": "mixed", "steps": 5, "after": "mut:param", "op_again_at": 2,
+                "seed": 703024307})
     return out
 
 
@@ -287,6 +292,28 @@ def _reference_loss(ref, case, batch):
     return None
 
 
+def _clamped_mass_active(ref, batches) -> bool:
+    """True iff, for some done row of some batch variant, the target network's return 'distribution' at the next
+    observation does not sum to one (clamp(min=1e-3) active)."""
+    import torch
+
+    from vf import zoo
+
+    try:
+        with torch.no_grad():
+            for b in batches:
+                e = zoo.as_experiences(ref, b)
+                nxt = ref.preprocess_observation(e["next_obs"])
+                dist = ref.actor_target(nxt, q=False)
+                mass = dist.sum(dim=-1)
+                rows = e["done"].reshape(-1) > 0
+                if rows.any() and float((mass[rows] - 1.0).abs().max()) > 1e-6:
+                    return True
+    except Exception:
+        return False
+    return False
+
+
 def _returned_losses(ret, case):
     algo = case["algo"]
     if algo in ("DQN", "CQN"):
@@ -480,9 +507,15 @@ def run_case(case):
                 bad = [k for k in l1 if abs(l1[k] - l2.get(k, float("nan"))) > 1e-5 * max(abs(l1[k]), 1e-3) + 1e-7 or not np.isfinite(l2.get(k, float("nan")))]
                 d2 = c01._update_diffs(agent, twin, walk) if not bad else []
                 if bad or d2:
+                    kind = "next_observation_of_done_transition_influences_update"
+                    if algo == "RainbowDQN" and _clamped_mass_active(ref, [batch, b2, nbatch, nb2]):
+                        # Rainbow's head clamps atom probabilities at 1e-3 without renormalising, so the target
+                        # "distribution" of a peaked network has mass > 1 and that mass (a function of the next
+                        # observation) scales the projected target even when done = 1: a distinct, tiny mechanism
+                        kind += ":through_unnormalised_clamped_target_mass"
                     rec.violate(
                         "terminal_masking",
-                        "next_observation_of_done_transition_influences_update",
+                        kind,
                         site,
                         algo=algo,
                         var=case["var"],
